@@ -822,6 +822,10 @@ func (bc *Blockchain) jumpToStateInternal(p uint32, stage stateChangeStage) erro
 				return fmt.Errorf("failed to retrieve genesis block hash: %w", err)
 			}
 			_, err = cache.DeleteBlock(genesisBlock.Hash())
+			if err == nil {
+				// Keep the header, header hashes are restored from headers on restart.
+				err = cache.StoreHeader(&genesisBlock.Header)
+			}
 			if err != nil {
 				return fmt.Errorf("failed to remove outdated state data for the genesis block: %w", err)
 			}
